@@ -176,6 +176,7 @@ static int handle_line(fstree_t *fs, const char *filename, size_t line_num,
 	strcpy(ent->name, path);
 	ent->mtime = fs->defaults.mtime;
 	ent->mode = mode | (is_glob ? 0 : cb->mode);
+	ent->flags = is_glob ? 0 : cb->flags;
 	ent->uid = uid;
 	ent->gid = gid;
 
